@@ -34,6 +34,16 @@ def _gen(g):
                 "actors": [[["recv", 0, 0]] + tail, [["recv", 1, g.int(0, 1)]] + tail,
                            [["sendc", 3, 0, 0, True], g.choice([["close_s", g.int(0, 2), 0], ["send", g.int(0, 1), 0]]),
                             ["close_s", g.int(0, 2), 0]]]}
+    if g.chance(6):
+        # targeted shape: one receive handle used by two tasks in turn; the first user is parked elsewhere and gets
+        # cancelled in the cycle of a send that the second user (parked on that handle) should receive; then the last
+        # send handle is closed
+        return {"config": g.choice(["S", "S", "E", "U"]), "max": g.choice(MAXES), "ns": 1, "nr": 2, "keep_r": g.bool(),
+                "nest": 0, "allow_f8": False,
+                "actors": [[["recv", 0, 0], ["recv", 1, 1]],
+                           [["recv", 4, 0], ["recv_nw", 2, 0]],
+                           [["send", 1, 0], ["sendc", 5, 0, g.choice([-1, 0, 0]), g.chance(30)],
+                            g.choice([["close_s", g.int(0, 2), 0], ["send", 1, 0]]), ["close_s", g.int(0, 2), 0]]]}
     case = gen_case(g, closing=True)
     # C13's rules do not look at whether every item arrives, so the F8 window need not be excluded here
     case["allow_f8"] = g.chance(50)
